@@ -121,7 +121,10 @@ func (h *handler) handleSessionDELETE() error {
 	if err != nil {
 		return err
 	}
-	cookie := h.db.Authenticator(h.ctx()).DeleteSessionForCookie(h.ctx(), h.rq)
+	cookie, err := h.db.Authenticator(h.ctx()).DeleteSessionForCookieWithError(h.ctx(), h.rq)
+	if err != nil {
+		return err
+	}
 	if cookie == nil {
 		return base.HTTPErrorf(http.StatusNotFound, "no session")
 	}
